@@ -97,6 +97,19 @@ CHECKS["C15"] = dict(
     note="Trusted: the harness's RFC 1928/1929 parser. HTTP/3 not simulated.",
 )
 
+CHECKS["C04"] = dict(
+    level="exploration",
+    text="Seeded search over rule lists (overlapping, malformed, masked, unknown actions; builder and rules_file incl. unreadable files), peer addresses (IPv4, IPv6, IPv4-mapped on dual-stack listeners) and byte-exact ClientHellos (fragmented, segmented, garbage) through the real accept loop; a reference evaluator written from CONFIGURATION.md decides allow / deny / either, and the observable is whether a ServerHello or nothing at all is written to the denied peer.",
+    design="DESIGN.md section 8 (C04)",
+    note="Trusted: the reference evaluator, the hand-built ClientHello encoder. The QUIC admission path is not run.",
+)
+CHECKS["C05"] = dict(
+    level="exploration",
+    text="Seeded search over host-class assignments with overlapping names, listen-protocol subsets, SNI and ALPN lists, interleaved with valid and storage-faulted reloads (missing / corrupt certificate, duplicate name, no main host) while handshakes are in flight; a rustls client observes certificate, ALPN and answering channel, a reference routing table per configuration generation decides; failed reloads must leave the previous generation in force.",
+    design="DESIGN.md section 8 (C05)",
+    note="Trusted: rustls client, reference routing table. HTTP/3 selection on QUIC is not run.",
+)
+
 NOT_YET = {
 }
 
